@@ -48,4 +48,44 @@ def nSec_no_overflow_statement : Prop :=
     inI64 (Civil.nSec y m d hh mm ss).val.y →
     (Civil.nSec y m d hh mm ss).ok
 
+/-! ## proofs -/
+
+theorem nSec_valid : nSec_valid_statement := by
+  intro y m d hh mm ss
+  exact (nSec_norm y m d hh mm ss).valid (by omega) (by omega) (by omega)
+
+theorem nSec_exact : nSec_exact_statement := by
+  intro y m d hh mm ss
+  rw [(nSec_norm y m d hh mm ss).secNum, unnormSec_eq]
+  omega
+
+theorem nSec_unique : nSec_unique_statement := by
+  intro y m d hh mm ss f hf h
+  exact secNum_inj hf (nSec_valid y m d hh mm ss) (by rw [h, nSec_exact])
+
+theorem align_spec : align_spec_statement := by
+  intro t f hf
+  exact ⟨align_valid t f hf, align_aligned t f, align_sameAbove t f, align_le t f hf,
+    fun g hg ha hle => align_greatest t f g hf hg ha hle, fun u => align_align t u f⟩
+
+theorem civilNew_spec : civilNew_spec_statement := by
+  intro t y m d hh mm ss
+  show Valid (Civil.align t (Civil.nSec y m d hh mm ss).val) ∧
+    Aligned t (Civil.align t (Civil.nSec y m d hh mm ss).val) ∧
+    SameAbove t (Civil.align t (Civil.nSec y m d hh mm ss).val) (Civil.nSec y m d hh mm ss).val
+  exact ⟨align_valid t _ (nSec_valid y m d hh mm ss), align_aligned t _, align_sameAbove t _⟩
+
+theorem nSec_no_overflow : nSec_no_overflow_statement := by
+  intro y m d hh mm ss hy _ hd hhh hmm hss hy1 hy2 hres
+  exact nSec_ok y m d hh mm ss hy hd hhh hmm hss (fun _ => hy1) hy2 hres
+
+/-- the hypotheses of `nSec_no_overflow` are satisfiable at the edge of the range -/
+example : inI64 (9223372036854775807 + Int.tdiv (-5) 12) ∧
+    inI64 (9223372036854775807 + ((-5) - 1) / 12) ∧
+    inI64 (Civil.nSec 9223372036854775807 (-5) 400 (-30) 70 (-9223372036854775808)).val.y := by
+  decide +kernel
+
+example : Valid ⟨2024, 3, 1, 23, 59, 59⟩ ∧
+    secNum ⟨2024, 3, 1, 23, 59, 59⟩ = unnormSec 2023 14 31 (-1) 59 59 := by decide
+
 end Cctz.C04
